@@ -25,6 +25,9 @@ CHECKS = {
  "C06": (EX, "DESIGN.md §3 C06", "runtime monitoring: unique-id handler-invocation log and call/return log of a real Adaptation with stub plugins, offline exactly-once/order checkers, porcupine sequencer model, race detector, CPU-affinity sweeps",
          "Plugins with enumerated/sampled subscription masks (all 8192 in the thorough tier), tied and distinct indices, registering before and during traffic, receive random sequences of the thirteen lifecycle calls from 1/4/16 concurrent callers; the logs are checked for exactly-once delivery to subscribed active plugins, index order, one common order, real-time order and own results.",
          "Activity of a plugin for a request is decided from the sync-block ticket vs the plugin's Synchronize tick; equal-index order is not asserted."),
+ "C07": (FE, "DESIGN.md §3 C07", "runtime monitoring with fault injection: raw protocol peers behind a harness-owned cut-wrapper inside a real Adaptation, enumerated fault kinds x positions x request types x byte offsets, result/latency/invocation-log oracles, hang rule with goroutine dumps, race detector, CPU-affinity sweeps",
+         "Every listed fault (peer close before/on/after, cut after k bytes of request or response, handler hang, malformed frames, unknown connection id, stalled 1 MiB request, flooding peer that stops reading, handler error) is injected at first/middle/last position for each request type, alone and in pairs, followed by two healthy requests; the request must complete in time with exactly the survivors' contributions, survivors invoked once, failed plugin dropped; handler errors must veto.",
+         "Cuts of the runtime-to-plugin direction are applied at the peer's end of the real socket; multi-gigabyte length fields are not injected."),
  "C08": (EX, "DESIGN.md §3 C08", "runtime monitoring: exactly-once checker over snapshot/creation id logs, online monitor of held sync blocks vs running synchronisations, hook-widened race windows, race detector",
          "Concurrent creators under sync blocks and plugins registering meanwhile; for every registered plugin and every container of the runtime's store, snapshot membership plus creation events must be exactly one; the sync callback must never run while a block is held; pending registrations must complete.",
          "The runtime side follows the documented sync-block contract; schedules are those produced by 1-16 CPUs, repetition and the hook yields."),
